@@ -379,12 +379,55 @@ func c17Decode(z int, s []byte) (out []byte, err error) {
 	return nil, fmt.Errorf("format %d", z)
 }
 
-// c17Identify: under which format does s decode to which of the candidate payloads?
+// c17Plausible: can s be a complete stream of wire format z at all?  (magic numbers of the formats;
+// a compressed stream is not much longer than what it contains)
+func c17Plausible(z int, s []byte, maxPayload int) bool {
+	if z != 1 && len(s) > maxPayload+maxPayload/4+256 {
+		return false
+	}
+	has := func(p ...byte) bool { return len(s) >= len(p) && bytes.Equal(s[:len(p)], p) }
+	gz := has(0x1f, 0x8b)
+	zs := has(0x28, 0xb5, 0x2f, 0xfd)
+	zl := len(s) >= 2 && s[0]&0x0f == 8 && (int(s[0])<<8|int(s[1]))%31 == 0
+	sn := has(0xff, 0x06, 0x00, 0x00, 's', 'N', 'a', 'P', 'p', 'Y')
+	switch z {
+	case 2:
+		return gz
+	case 3:
+		return !gz && !zs && !sn // brotli has no magic number; the others are tried first
+	case 4:
+		return zs
+	case 5:
+		return zl
+	case 6:
+		return sn
+	}
+	return true
+}
+
+// identify: under which format does s decode to which of the candidate payloads?
 func (t *c17Payloads) identify(s []byte, cands []string) (int, string, bool) {
 	if len(s) == 0 {
 		return 0, "", false
 	}
+	maxLen := 0
+	for _, id := range cands {
+		if b, _, ok := t.get(id); ok && len(b) > maxLen {
+			maxLen = len(b)
+		}
+	}
 	for z := 1; z <= 6; z++ {
+		if !c17Plausible(z, s, maxLen) {
+			continue
+		}
+		if z == 1 {
+			for _, id := range cands {
+				if b, _, ok := t.get(id); ok && len(b) == len(s) && bytes.Equal(s, b) {
+					return 1, id, true
+				}
+			}
+			continue
+		}
 		out, err := c17Decode(z, s)
 		if err != nil {
 			continue
@@ -501,20 +544,115 @@ func (t *c17Payloads) parseItems(body []byte, n int, cands []string) ([]c17Seg, 
 	if n == 1 {
 		return try(rest)
 	}
+	// candidate extents of this item's data, cheapest first: the declared length, nothing, an identity
+	// payload, the end of a self-delimiting compressed stream; only formats without an end marker
+	// that can be found by streaming (zstd, framed snappy: recognisable by their magic) are scanned
+	tried := map[int]bool{}
+	attempt := func(d int) ([]c17Seg, bool) {
+		if tried[d] {
+			return nil, false
+		}
+		tried[d] = true
+		return try(d)
+	}
 	if uint64(declared) <= uint64(rest) {
-		if segs, ok := try(int(declared)); ok {
+		if segs, ok := attempt(int(declared)); ok {
 			return segs, true
 		}
 	}
-	for d := 0; d <= rest-5*(n-1); d++ {
-		if uint64(d) == uint64(declared) {
-			continue
+	if segs, ok := attempt(0); ok {
+		return segs, true
+	}
+	data := body[5:]
+	for _, id := range cands {
+		if b, _, ok := t.get(id); ok && len(b) > 0 && len(b) <= len(data) && bytes.Equal(data[:len(b)], b) {
+			if segs, ok := attempt(len(b)); ok {
+				return segs, true
+			}
 		}
-		if segs, ok := try(d); ok {
-			return segs, true
+	}
+	for _, z := range []int{2, 5, 3} {
+		for _, d := range c17StreamEnds(z, data) {
+			if segs, ok := attempt(d); ok {
+				return segs, true
+			}
+		}
+	}
+	if c17Plausible(4, data[:min(len(data), 16)], 1<<30) || c17Plausible(6, data[:min(len(data), 16)], 1<<30) {
+		for d := 1; d <= rest-5*(n-1); d++ {
+			if segs, ok := attempt(d); ok {
+				return segs, true
+			}
 		}
 	}
 	return nil, false
+}
+
+type c17OneByteReader struct {
+	s   []byte
+	pos int
+}
+
+func (r *c17OneByteReader) Read(p []byte) (int, error) {
+	if len(p) == 0 {
+		return 0, nil
+	}
+	if r.pos >= len(r.s) {
+		return 0, io.EOF
+	}
+	p[0] = r.s[r.pos]
+	r.pos++
+	return 1, nil
+}
+
+func (r *c17OneByteReader) ReadByte() (byte, error) {
+	if r.pos >= len(r.s) {
+		return 0, io.EOF
+	}
+	r.pos++
+	return r.s[r.pos-1], nil
+}
+
+// c17StreamEnds: if s begins with a gzip (2), zlib (5) or brotli (3) stream, candidates for the
+// number of bytes of that stream.  These formats mark their own end; the decoder is fed one byte at
+// a time, so when it stops (end of stream, or complaint about the byte after it) it has taken at most
+// one byte too many.  The candidates are verified by the caller (identify on exactly that range).
+func c17StreamEnds(z int, s []byte) (res []int) {
+	defer func() {
+		if r := recover(); r != nil {
+			res = nil
+		}
+	}()
+	if !c17Plausible(z, s[:min(len(s), 16)], 1<<30) {
+		return nil
+	}
+	src := &c17OneByteReader{s: s}
+	var rd io.Reader
+	switch z {
+	case 2:
+		zr, err := gzip.NewReader(src)
+		if err != nil {
+			return nil
+		}
+		zr.Multistream(false)
+		rd = zr
+	case 5:
+		zr, err := zlib.NewReader(src)
+		if err != nil {
+			return nil
+		}
+		rd = zr
+	case 3:
+		rd = brotli.NewReader(src)
+	default:
+		return nil
+	}
+	_, _ = io.Copy(io.Discard, rd)
+	res = []int{src.pos}
+	if src.pos > 0 {
+		res = append(res, src.pos-1)
+	}
+	return res
 }
 
 // c17Envelopes is the plain envelope reader (by DECLARED length) used for the invertibility law.
